@@ -30,7 +30,7 @@ Definition one_to_one : list string :=
    "address"; "origin"; "number"; "extcodesize"; "extcodehash"; "codecopy"; "extcodecopy"; "returndatasize";
    "returndatacopy"; "callvalue"; "selfbalance"; "sload"; "sstore"; "mload"; "mstore"; "tload"; "tstore"; "timestamp";
    "caller"; "blockhash"; "selfdestruct"; "signextend"; "stop"; "shr"; "shl"; "sar"; "and"; "xor"; "or"; "add"; "sub";
-   "mul"; "div"; "smul"; "sdiv"; "mod"; "smod"; "exp"; "addmod"; "mulmod"; "eq"; "iszero"; "not"; "lt"; "gt"; "slt";
+   "mul"; "div"; "byte"; "sdiv"; "mod"; "smod"; "exp"; "addmod"; "mulmod"; "eq"; "iszero"; "not"; "lt"; "gt"; "slt";
    "sgt"; "create"; "create2"; "balance"; "call"; "staticcall"; "delegatecall"; "codesize"; "basefee"; "blobhash";
    "blobbasefee"; "prevrandao"; "difficulty"; "invalid"].
 Definition no_code : list string := ["alloca"; "param"; "fmp_param"; "retpc_param"; "assign"; "dbname"; "phi"; "nop"].
